@@ -30,6 +30,7 @@ REQUIRED = ["no_loss", "admitted_by_commit", "only_admitted_delivered", "save_ev
             "calls_bounded_by_budget", "duplicate_payload_write_is_silent", "duplicate_payload_calls_again_without_guard", "fact_writePayload_notifies_only_what_it_saved",
             "rest_lists_every_spent_job", "undelivered_visible_at_rest_api", "listEvents_ok", "failedRows_sound",
             "cleanup_calls_nobody_and_records_what_it_removes", "cleanup_touches_only_named_failed_matching",
+            "fact_notifier_options", "fact_shelf_name", "fact_save_check_order", "fact_registry", "fact_list_events", "retry_attempts_machine_source",
             "np_calls_bounded", "np_gives_up_after_budget", "retry_attempts_machine", "retry_attempts_refines", "retry_delay_never_overflows"]
 
 
